@@ -260,6 +260,7 @@ type World struct {
 	window     int
 	queue      int
 	seq        int
+	stalled    map[int]chan struct{}
 }
 
 func newWorld(o *out.W, prop string, window, queue int, creds map[string]string) *World {
@@ -270,6 +271,16 @@ func newWorld(o *out.W, prop string, window, queue int, creds map[string]string)
 	w.be.SessionQueueSize = queue
 	w.be.Credentials = creds
 	w.wb = &wrapBackend{MemoryBackend: w.be, w: w, mode: "sync"}
+	w.stalled = map[int]chan struct{}{}
+	// a logger that can hold up a connection's goroutines (they all report through it)
+	w.be.Logger = func(_ broker.LogEvent, c *broker.Client, _ packet.Generic, _ *packet.Message, _ error) {
+		w.mu.Lock()
+		ch := w.stalled[w.wb.connOf(c)]
+		w.mu.Unlock()
+		if ch != nil {
+			<-ch
+		}
+	}
 	cs := "-"
 	if creds != nil {
 		var l []string
@@ -343,9 +354,39 @@ func (w *World) delivered(c int, p packet.Generic) {
 	}
 }
 
+// Stall holds up connection c: its goroutines block at their next log call (i.e. when it dies)
+func (w *World) Stall(c int) {
+	w.mu.Lock()
+	w.stalled[c] = make(chan struct{})
+	w.mu.Unlock()
+	w.op(fmt.Sprintf("br stall %d", c))
+	w.o.Count("stim/stall")
+}
+
+func (w *World) Unstall(c int) {
+	w.mu.Lock()
+	ch := w.stalled[c]
+	delete(w.stalled, c)
+	w.mu.Unlock()
+	if ch == nil {
+		return
+	}
+	w.op(fmt.Sprintf("br unstall %d", c))
+	close(ch)
+	w.settle()
+}
+
 // settle waits for quiescence, then reports what happened
 func (w *World) settle() {
 	synctest.Wait()
+	w.mu.Lock()
+	ns := len(w.stalled)
+	w.mu.Unlock()
+	if ns > 0 {
+		// let a takeover that waits for a stalled connection run into the kill timeout
+		time.Sleep(w.be.KillTimeout + time.Second)
+		synctest.Wait()
+	}
 	w.mu.Lock()
 	l := w.log
 	w.log = nil
@@ -461,6 +502,9 @@ func (w *World) alive(c int) bool {
 
 // finish ends a case: nothing may stay blocked
 func (w *World) finish() {
+	for c := 1; c <= w.nconn; c++ {
+		w.Unstall(c)
+	}
 	for c := 1; c <= w.nconn; c++ {
 		if w.alive(c) && !w.peers[c].connected {
 			w.Drop(c)
